@@ -522,7 +522,7 @@ func genSize(r *rand.Rand) Input {
 }
 
 // the last 0.005 PB below 2^63 print as "8192.00 PB", which does not parse back (known finding bytesize-print-top)
-const printTop = int64(math.MaxInt64) - 5629499534213
+const printTop = int64(9223366407355241984) // smallest size printing as 8192.00 PB
 
 func genPrint(r *rand.Rand) Input {
 	var b int64
@@ -550,14 +550,14 @@ func genPrint(r *rand.Rand) Input {
 		b = r.Int63n(int64(1) << uint(lib.Range(r, 10, 62)))
 	}
 	if b >= printTop {
-		b = printTop - 1
+		b = printTop - 1 - b%1000
 	}
 	return Input{Kind: "print", B: b}
 }
 
 // the known-finding stream
 func genPrintTop(r *rand.Rand) Input {
-	return Input{Kind: "print", B: printTop + 1 + r.Int63n(int64(math.MaxInt64)-printTop)}
+	return Input{Kind: "print", B: printTop + r.Int63n(int64(math.MaxInt64)-printTop+1)}
 }
 
 const renderT0 = 1600000000 // data is stored at [renderT0, renderT0+10) and around now-10min
